@@ -55,6 +55,12 @@ def run(tier, replay=None):
     for i, x in enumerate(rows):
         src, bl, cl = wtcorpus.ref_program(x)
         cases.append({"Id": "r%d" % i, "Src": src, "exp": x["ok"], "lines": [bl, cl], "row": x})
+        if x["kind"] in ("maparr", "mapmap"):
+            src, bl, cl = wtcorpus.rev_program(x)
+            cases.append({"Id": "v%d" % i, "Src": src, "exp": x["ok"], "lines": [bl, cl], "row": dict(x, kind=x["kind"] + "-reversed")})
+        if wtcorpus.shorthand_ok(x):
+            src, bl, cl = wtcorpus.shorthand_program(x)
+            cases.append({"Id": "s%d" % i, "Src": src, "exp": x["ok"], "lines": [bl, cl], "row": dict(x, kind="shorthand")})
     for i, x in enumerate(lits):
         src, bl, cl = wtcorpus.lit_program(x)
         cases.append({"Id": "l%d" % i, "Src": src, "valid": x["valid"], "lines": [bl, cl], "row": x})
